@@ -63,6 +63,7 @@ SortOrd(b, a, rest, mode0, loose) ==
                  \* a dotted-key table under the sorted one: the documentation says "not recursive", the code sorts
                  \* Item::Table children that are dotted and leaves dotted inline tables alone: either is accepted
                  ELSE IF mode = "dot" THEN Ascending(BodyKeys(a.v)) \/ EKeysOf(a.v) = EKeysOf(b.v)
+                 ELSE IF loose THEN BodyKeys(a.v) = BodyKeys(b.v)
                  ELSE EKeysOf(a.v) = EKeysOf(b.v)
               /\ \A x \in 1..Len(b.v) :
                    LET y == KeyPos(a.v, b.v[x].key) IN
@@ -83,9 +84,12 @@ RECURSIVE SurvivorsOrderedL(_, _, _)
 SurvivorsOrderedL(before, after, loose) ==
   IF before.k # after.k THEN TRUE
   ELSE CASE before.k = "t" ->
-              LET pinned(es) == {es[x].key : x \in {y \in 1..Len(es) : ~loose \/ ~HdrDefined(es[y].val)}}
-                  both == {before.v[x].key : x \in 1..Len(before.v)} \cap {after.v[x].key : x \in 1..Len(after.v)}
-                  common == pinned(before.v) \cap pinned(after.v)
+              LET both == {before.v[x].key : x \in 1..Len(before.v)} \cap {after.v[x].key : x \in 1..Len(after.v)}
+                  hb(k) == HdrDefined(before.v[KeyPos(before.v, k)].val)
+                  ha(k) == HdrDefined(after.v[KeyPos(after.v, k)].val)
+                  \* an entry that changes between "pair in the body" and "table with a header" has to move
+                  \* (pairs precede headers); with position-less tables around only body pairs are pinned
+                  common == {k \in both : hb(k) = ha(k) /\ (~loose \/ ~hb(k))}
                   kb == SelectSeq(EKeysOf(before.v), LAMBDA k : k \in common)
                   ka == SelectSeq(EKeysOf(after.v), LAMBDA k : k \in common)
               IN /\ kb = ka
@@ -117,20 +121,31 @@ AttachedAbove(t, lineStart, lo, acc) ==
        IF ps >= lo /\ a <= Len(body) /\ body[a] = 35 THEN AttachedAbove(t, ps, lo, <<StripWsEnd(SubSeq(body, a, Len(body)))>> \o acc)
        ELSE acc
 
-RECURSIVE PiecesAcc(_, _, _, _, _, _, _)
+RECURSIVE PiecesAcc(_, _, _, _, _, _, _, _)
 \* acc = sequence of groups; a group = the pieces of one section (the comments attached above its header, the
-\* header line, the lines of its pairs); the first group is the root section
-PiecesAcc(t, stmts, pos, o, j, lo, acc) ==
+\* header line, the lines of its pairs); the first group is the root section.
+\* hv = position of a table whose header line may disappear (see Validate.EditSteps), or a path that matches nothing
+PiecesAcc(t, stmts, pos, o, j, lo, acc, hv) ==
   IF j > Len(stmts) THEN acc
   ELSE LET s == stmts[j]
            nextLo == LineEnd(t, s.sp[2]) + 1
            acc1 == IF s.kind = "kv" THEN acc ELSE Append(acc, <<>>)
            n == Len(acc1)
-       IN IF StmtTouched(s, pos[j], o) THEN PiecesAcc(t, stmts, pos, o, j + 1, nextLo, acc1)
+       IN IF StmtTouched(s, pos[j], o) \/ (s.kind # "kv" /\ pos[j] = hv) THEN PiecesAcc(t, stmts, pos, o, j + 1, nextLo, acc1, hv)
           ELSE PiecesAcc(t, stmts, pos, o, j + 1, nextLo,
-                         [acc1 EXCEPT ![n] = acc1[n] \o AttachedAbove(t, LineStart(t, s.sp[1]), lo, <<>>) \o <<StmtPiece(t, s)>>])
+                         [acc1 EXCEPT ![n] = acc1[n] \o AttachedAbove(t, LineStart(t, s.sp[1]), lo, <<>>) \o <<StmtPiece(t, s)>>], hv)
 \* the pieces of text `t` (parsed as p) that operation o must leave verbatim, in source order, grouped by section
-PieceGroups(t, p, o) == PiecesAcc(t, p.stmts, StmtPos(p.stmts), o, 1, 1, <<<<>>>>)
+NoPath == <<<<0 - 9>>>>
+PieceGroupsH(t, p, o, hv) == PiecesAcc(t, p.stmts, StmtPos(p.stmts), o, 1, 1, <<<<>>>>, hv)
+PieceGroups(t, p, o) == PieceGroupsH(t, p, o, NoPath)
+\* the text in front of the pair that defines position `at` (from the end of the previous statement's line): what the
+\* parser stores as the prefix of that key
+RECURSIVE KvPrefix(_, _, _, _, _, _)
+KvPrefix(t, stmts, pos, at, j, lo) ==
+  IF j > Len(stmts) THEN <<>>
+  ELSE IF stmts[j].kind = "kv" /\ pos[j] = at THEN SubSeq(t, lo, stmts[j].sp[1] - 1)
+  ELSE KvPrefix(t, stmts, pos, at, j + 1, LineEnd(t, stmts[j].sp[2]) + 1)
+KeyPrefixOf(t, p, at) == KvPrefix(t, p.stmts, StmtPos(p.stmts), at, 1, 1)
 RECURSIVE FlattenG(_)
 FlattenG(gs) == IF gs = <<>> THEN <<>> ELSE Head(gs) \o FlattenG(Tail(gs))
 Pieces(t, p, o) == FlattenG(PieceGroups(t, p, o))
